@@ -102,3 +102,38 @@ def run_fiber_driver(ctx, driver, args=(), coro=False, timeout=120):
     except subprocess.TimeoutExpired:
         return True, '$ %s %s\nTIMEOUT after %ss (hang reproduced)' % (driver, ' '.join(map(str, args)), timeout)
     return (rc != 0), '$ %s %s\n%s\nexit=%d' % (driver, ' '.join(map(str, args)), out[-3000:], rc)
+
+
+def coro_lib(ctx):
+    """the REAL library of ctx.repo built with coroutine support (C++20, YACLIB_FLAGS=CORO), cached per run"""
+    d = os.path.join(ctx.workdir, 'corolib')
+    lib = os.path.join(d, 'src', 'libyaclib.a')
+    if os.path.exists(lib):
+        return d, ''
+    cmd = ['cmake', '-G', 'Ninja', '-S', ctx.repo, '-B', d, '-DCMAKE_BUILD_TYPE=Debug', '-DYACLIB_CXX_STANDARD=20', '-DYACLIB_FLAGS=CORO', '-DYACLIB_TEST=OFF']
+    rc, out = _sh(cmd, timeout=300)
+    if rc == 0:
+        rc, out2 = _sh(['cmake', '--build', d, '-j', '12'], timeout=900)
+        out += out2
+    if rc != 0 or not os.path.exists(lib):
+        return None, 'the CORO build of the tree under check failed:\n' + out[-2500:]
+    return d, ''
+
+
+def run_coro_driver(ctx, driver, args=(), timeout=90):
+    d, log = coro_lib(ctx)
+    if d is None:
+        return None, log
+    src = os.path.join(ROOT, 'replay', driver)
+    exe = os.path.join(ctx.workdir, driver.replace('.cpp', '') + '_coro')
+    if not os.path.exists(exe):
+        cmd = ['g++', '-std=c++20', '-fcoroutines', '-O0', '-g', '-I', os.path.join(ctx.repo, 'include'), '-I', os.path.join(d, 'include'), src,
+               os.path.join(d, 'src', 'libyaclib.a'), '-lpthread', '-o', exe]
+        rc, out = _sh(cmd)
+        if rc != 0:
+            return None, 'coroutine replay driver does not compile against the tree under check:\n' + out[-2000:]
+    try:
+        rc, out = _sh([exe] + [str(a) for a in args], timeout=timeout)
+    except subprocess.TimeoutExpired:
+        return True, '$ %s %s\nTIMEOUT after %ss (hang reproduced)' % (driver, ' '.join(map(str, args)), timeout)
+    return (rc != 0), '$ %s %s\n%s\nexit=%d' % (driver, ' '.join(map(str, args)), out[-3000:], rc)
